@@ -11,7 +11,8 @@ TABLE = [
     ("tsp", None, 3, 4), ("atsp", None, 3, 4), ("cvrp", None, 3, 4), ("sdvrp", None, 2, 3), ("op", None, 2, 3), ("pctsp", None, 2, 3),
     ("spctsp", None, 2, 3), ("pdp", "free", 2, 4), ("pdp", "depot", 2, 4), ("mtsp", "minmax", 3, 4), ("mtsp", "sum", 3, 4),
     ("svrp", None, 3, 4), ("cvrptw", None, 3, 3),
-] + [("mtvrp", v, 3, 3) for v in ("", "OTW", "BL", "OBLTW")] + [("flp", None, 3, 3), ("mcp", None, 2, 2), ("dpp", None, 4, 4), ("mdpp", None, 4, 4), ("smtwtp", None, 3, 3)]
+] + [("mtvrp", v, 3, 3) for v in ("", "OTW", "BL", "OBLTW")] + [("flp", None, 3, 3), ("mcp", None, 2, 2), ("dpp", None, 4, 4), ("mdpp", None, 4, 4), ("smtwtp", None, 3, 3),
+                                                                   ("mdcpdp", "d1", 2, 4), ("mdcpdp", "d2", 2, 2)]
 TABLE_T = [("mtvrp", v, 3, 3) for v in ("O", "B", "L", "TW", "OB", "OL", "BTW", "LTW", "OBL", "OBTW", "OLTW", "BLTW")]
 
 
